@@ -1104,3 +1104,13 @@ def noref(t):
             return noref(t[1])
         return (t[0],) + tuple(noref(x) if isinstance(x, (tuple, frozenset)) else x for x in t[1:])
     return tuple(noref(x) if isinstance(x, (tuple, frozenset)) else x for x in t)
+
+
+class SymTerms(Terms):
+    """like Terms, but named (user) locals other than parameters are opaque variables
+    ("var", l, name): used for loop-carried counters"""
+
+    def local(self, l, depth=0):
+        if l > self.fn.arg_count and self.fn.locals[l].get("name"):
+            return ("var", l, self.fn.locals[l]["name"])
+        return Terms.local(self, l, depth)
